@@ -2,7 +2,7 @@
 """Regenerate /verif/MANIFEST.json from the table below (kept next to the checks so that it stays current)."""
 import json
 CLAIMED = {
- 'C01': ('proof', 'structural Coq lemmas (all Ops): every element-wise operation of the 7 float vector types in 5 tables is the lane-wise primitive; for the multi-instruction SSE2 operations the code is proved to apply the lane functions floor/ceil/trunc/round_lane of FloatTricks.v, which are proved (Flocq) equal to IEEE roundToIntegral in the respective direction and to the Rust primitive for every binary32; predicates/reductions as boolean/fold formulas; differential correspondence', 'partial: abs/signum/copysign/recip/exp/powf/euclid bit tricks of SSE2 are lane-uniform + differential only; SSE2 % is a known finding (floored remainder), pinned by a second lemma (DESIGN 12.3)'),
+ 'C01': ('proof', 'structural Coq lemmas (all Ops): every element-wise operation of the 7 float vector types in 5 tables is the lane-wise primitive; for the multi-instruction SSE2 operations the code is proved to apply the lane functions floor/ceil/trunc/round_lane of FloatTricks.v, which are proved (Flocq) equal to IEEE roundToIntegral in the respective direction and to the Rust primitive for every binary32; predicates/reductions as boolean/fold formulas; differential correspondence', 'every operation is stated as the lane-wise primitive (or an IEEE-equal lane function); SSE2 % is a known finding (floored remainder), pinned by a second lemma (DESIGN 12.3); libm spelled-out euclid/signum forms are differential only; NEON/wasm32 not translated'),
  'C02': ('proof', 'algebraic Coq lemmas over an arbitrary field: dot, cross, perp_dot, length(_squared/_recip), distance(_squared), element sum/product, project/reject, reflect, normalize, try_normalize/normalize_or(_zero) (every path), refract (both paths), angle_between/angle_to = arccos of the textbook cosine (acos_approx abstracted) - the exact real-arithmetic value the property measures against; 7 types x 3 backends', 'PARTIAL: the rounding-error bounds (few epsilon times sum of magnitudes) and the accuracy of acos_approx are NOT proved; exercised differentially only'),
  'C03': ('proof', 'algebraic Coq lemmas over an arbitrary field: determinant = Leibniz, inverse = adjugate/det, products, entry-wise ops; 7 types x 3 backends', 'partial: rounding-error bounds and lattice exactness are differential only'),
  'C04': ('proof', 'algebraic Coq lemmas over an arbitrary field: Hamilton product, conjugate, q*v = vec(q v conj q) for every q; rotation laws in QuatAlg.v', 'partial: rounding-error bounds are not proved'),
